@@ -7,7 +7,8 @@ VERIF = os.path.dirname(os.path.dirname(os.path.abspath(__file__)))
 EXTRA = {"C11-3": ["C15"], "C12-1": ["C11"], "C15-2": ["C11"], "C10-2": ["C15"], "C18-3": ["C15"], "C15-3": ["C18"],
          "C01-4": ["C02", "C05"], "C02-5": ["C01", "C03"], "C02-6": ["C10", "C01"], "C05-6": ["C03"], "C07-4": ["C03"], "C07-5": ["C03"],
          "C12-4": ["C04"], "C12-5": ["C03"], "C12-6": ["C11"], "C13-4": ["C09"], "C20-4": ["C09"], "C11-6": ["C01", "C10"],
-         "C08-7": ["C20"], "C03-8": ["C06"], "C13-8": ["C10"], "C16-7": ["C15", "C10"], "C11-7": ["C08"], "C08-8": ["C07"]}
+         "C08-7": ["C20"], "C03-8": ["C06"], "C13-8": ["C10"], "C16-7": ["C15", "C10"], "C11-7": ["C08"], "C08-8": ["C07"],
+         "C12-8": ["C13"], "C12-7": ["C04", "C06"], "C07-7": ["C03", "C04"], "C05-8": ["C03"], "C04-8": ["C06"]}
 ONLY_EXTRA = bool(os.environ.get("ONLY_EXTRA"))
 names = sys.argv[1:] or sorted(os.listdir(os.path.join(VERIF, "seeded")))
 res_path = os.path.join(VERIF, "seeded", "RESULTS.json")
